@@ -417,6 +417,15 @@ func (r *replicatorActor) handleUpdate(ctx *ReceiveContext, msg updateCommand) {
 // handleGet reads the current value of a CRDT key.
 func (r *replicatorActor) handleGet(ctx *ReceiveContext, msg getCommand) {
 	keyID := msg.KeyID()
+
+	// a tombstoned key stays deleted: do not coordinate the read, a peer that
+	// has not applied the tombstone yet would hand back its stale value and
+	// storing the merge below would resurrect the key on this node
+	if _, ok := r.tombstones[keyID]; ok {
+		ctx.Response(msg.Response(nil))
+		return
+	}
+
 	data := r.store[keyID]
 
 	coordination := msg.ReadCoordination()
